@@ -93,6 +93,8 @@ def _decode_size(what, desc):
 def _check_coordinate_list(value, low, high):
     if value[0] < low or value[0] > high:
         raise ValueError(f"not in range [{low}, {high}]")
+    if abs(value[0]) == high and (value[1] or value[2] or value[3]):
+        raise ValueError(f"not in range [{low}, {high}]")
     if value[1] < 0 or value[1] > 59:
         raise ValueError("bad minutes value")
     if value[2] < 0 or value[2] > 59:
